@@ -200,7 +200,9 @@ class ExpiryBudget:
                 for k in regs:
                     ce = specs[k].cltv_expiry
                     mn = ce if mn is None else sym.ite(sym.lt(ce, mn), ce, mn)
-                st.roots['c04_init'] = (mn, st.roots['hmx'].cell.v, list(regs))
+                # the height the budget is measured against: the highest one the plugin has finished processing
+                # (equal to the height cell unless the update path lost it)
+                st.roots['c04_init'] = (mn, st.roots.get('height_applied', st.roots['hmx'].cell.v), list(regs))
         for ev in new:
             if ev[0] == 'rpc_call' and ev[2] == 'pay':
                 init = st.roots.get('c04_init')
@@ -261,6 +263,9 @@ class NoPanicNoHang:
     def on_task_panic(self, m, sc, task, exc):
         role = 'lifecycle' if task.name.startswith('{') else 'handler'
         msg = str(exc.msg)
+        if 'twice (deadlock)' in msg:
+            # tokio's Mutex does not panic on a re-lock by its holder: the task waits for itself forever, with the lock held
+            raise Violation('self-deadlock', {'task': task.name[:60], 'what': msg[:120]}, 'lock', 'relock')
         cause = 'todo-pending-wait-error' if 'not yet implemented' in msg or 'Failed to await pending payment' in msg else 'panic'
         raise Violation('task-panic', {'task': task.name[:60], 'panic': msg[:200]}, role + '.panic', cause)
     def after_step(self, m, sc, label, new):
